@@ -455,6 +455,7 @@ impl Case for C03Case {
                         keys: keys.clone(),
                         intrs: intrs.clone(),
                         max_instr: *budget,
+                        cycle_replies: false,
                     };
                     let o = w.line(text, &io);
                     if o.budget_hit {
